@@ -113,6 +113,26 @@ func simplifyCurve(curve Path,
 				}
 			}
 			if j == len(curve)-1 {
+				if j > i+1 && closingSegMakesNotSimple(curve[i], curve[j], out[0:i], otherCurves) {
+					// The closing segment would cause a self intersection.
+					// Keep the farthest point that can be reached from
+					// curve[i] without causing one and carry on from there.
+					// All points skipped on the way are within the tolerance
+					// because the segments to every earlier j have already
+					// been checked.
+					jj := j - 1
+					for jj > i+1 &&
+						(closingSegMakesNotSimple(curve[i], curve[jj], out[0:i], otherCurves) ||
+							segMakesNotSimple(curve[i], curve[jj], []Path{curve[jj+1:]})) {
+						jj--
+					}
+					i = jj
+					out = append(out, curve[i])
+					j = i + 1
+					if j < len(curve)-1 {
+						continue
+					}
+				}
 				// Add last point regardless of distance.
 				out = append(out, curve[j])
 				breakTime = true
@@ -123,6 +143,13 @@ func simplifyCurve(curve Path,
 		}
 	}
 	return out
+}
+
+// closingSegMakesNotSimple returns whether the segment would intersect
+// the points that have already been kept or any of the other curves.
+func closingSegMakesNotSimple(segStart, segEnd Point, kept Path, otherCurves []Path) bool {
+	return segMakesNotSimple(segStart, segEnd, []Path{kept}) ||
+		segMakesNotSimple(segStart, segEnd, otherCurves)
 }
 
 func segMakesNotSimple(segStart, segEnd Point, paths []Path) bool {
